@@ -38,6 +38,9 @@ def to_term(v, kind=None):
     """z3 term of a scalar value (native or SymVal). kind: desired numeric sort 'int'/'real'."""
     if isinstance(v, SymVal):
         t, k = v.t, v.k
+    elif z3.is_expr(v):
+        t = v
+        k = 'int' if z3.is_int(v) else 'real' if z3.is_real(v) else 'bool' if z3.is_bool(v) else 'str'
     elif isinstance(v, bool):
         t, k = z3.BoolVal(v), 'bool'
     elif isinstance(v, int):
